@@ -10,9 +10,18 @@ claim("C20",
       "Trusts clang's CFG/NORETURN knowledge (assert is live, rule G1 in C12), the kernel's write(2) contract, "
       "and that the loop is bounded-unrolled once (bound 1) - the loop body is re-entered with symbolic state.")
 
-na("C16", "arithmetic identity over all 2^32/2^64 values (shifts, masks, thresholds): its truth is in the numbers, "
-          "not in the shape of the code; any shape rule would be a frozen picture of today's source; needs exhaustive "
-          "evaluation or a bit-vector proof, both other technique families (DESIGN section 3 C16 / section 5)")
+claim("C16",
+      "abstract interpretation in a bit-provenance domain (every bit a constant, a named input bit or unknown) with trace partitioning at comparisons, over the AST of the codec functions and their inlined callees",
+      "Decides, for every value class the functions' own comparisons create (the classes cover all inputs by construction): the varint encoders put input "
+      "bits 7k..7k+6 into byte k with continuation bits 1..10, lose no bit, use the minimal length and return it; mtbl_varint_length returns n on exactly "
+      "those classes; the decoders read exactly the n bytes up to the first byte without continuation bit, put bit j of byte k into value bit 7k+j and "
+      "refuse only when the first ceil(W/7) bytes all continue; the encoder's bytes substituted into the decoder give back every input bit and the count; "
+      "mtbl_varint_length_packed returns the index+1 of the first terminating byte within the buffer and never looks at or beyond its end (each length 0..12, "
+      "0..24 thorough); the fixed codecs route input bit 8k+j to byte k bit j and back, return the width, and touch the byte buffer only byte-wise (any alignment). "
+      "No input value is chosen and no solver is involved; a construct the domain cannot express is reported as analysis-broken (exit 2), never as a verdict.",
+      "One target is analysed: the configured one (byte order read from the preprocessor). Trusts the models of memcpy/memmove with a constant size and of "
+      "glibc's __uintN_identity/__bswap_N, and clang's constant folding. Not decided: big-endian hosts, what a refused decode leaves in *value, buffer lengths "
+      "beyond the enumerated ones for length_packed.")
 
 claim("C08",
       "abstract path evaluation (decision table) of the add gate, mod/ref purity of the refusal path, typestate of the remembered key, constant evaluation of open(2) flags",
@@ -149,7 +158,7 @@ claim("C09",
       "same block after their last definition and nothing between compression and the file changes them; restart cadence and reset table; a block is cut iff estimate+15+len_key+len_val "
       ">= block_size; the index entry carries the offset the block started at and pending_offset starts at the descriptor's offset and grows by the bytes written; trailer layout as in C10; every increment applied to separator bytes is guarded against wrap-around and a value computed from a multi-byte read is written back whole (the index key cannot drop below the block's last key that way). "
       "The bytes of real files (which need an independent decoder run on outputs) and the separator arithmetic are not decided.",
-      "Trusts T-format (written from the LevelDB block format and mtbl's documentation), the varint/fixed codecs (C16 is not claimed), loop bound 1.")
+      "Trusts T-format (written from the LevelDB block format and mtbl's documentation), the varint/fixed codecs (decided separately by C16), loop bound 1.")
 
 claim("C11",
       "sibling agreement of the three reader-side framing decoders per format version (additive-term comparison of pointer expressions from abstract paths), mirror rules for the restart array, parse-sequence table check",
@@ -167,7 +176,7 @@ claim("C01",
       "once or is compressed then written once, finish runs flush < join < index block < one 512-byte trailer; an exhausted block makes next advance the index once, load the block it names "
       "and position at its first entry, failing only at the end of the index; mtbl_dump prints an entry iff not silent and both prefix tests (length and bytes) and both minimum lengths hold. "
       "That prefix sharing, restart offsets and block cuts compose to the identity for every key sequence and configuration, and the compression libraries, are not decided.",
-      "Trusts T-format, the varint codecs (C16 not claimed), loop bound 1, three-valued evaluation of the dump formula over the atoms each path constrains.")
+      "Trusts T-format, the varint codecs (decided separately by C16), loop bound 1, three-valued evaluation of the dump formula over the atoms each path constrains.")
 
 claim("C12",
       "must-pass-through of a NORETURN-guarded CRC comparison over exactly the decoded bytes on every verify-enabled path to block decoding, who-may-call rules, loop/propagation rules for mtbl_verify, liveness of assert in the build",
